@@ -865,9 +865,12 @@ Proof.
   - cbn [run_handler]. pose proof (sim_do_writeable r w1 w2 HS) as H.
     sim_destruct H. destruct a as [e r']. apply IH. apply sms_ev. exact HS'.
   - cbn [run_handler]. destruct (negb (rwriteable r)); [apply IH; apply sms_ev; exact HS|].
+    (* both runs see the same Request.lock: the writer waits for it in both, or in neither *)
+    destruct (rlock r && negb (len (take n rest) =? 0)); [apply rsim_dl; exact HS|].
     pose proof (sim_writer_write_all (N.to_nat (n / 65535) + 2) s (r_id (sreq (rsp r))) (take n rest) w1 w2 HS) as H.
     sim_destruct H. destruct a as [k|]; [apply rsim_ok; apply sms_ev; exact HS'|apply IH; apply sms_ev; exact HS'].
-  - cbn [run_handler]. destruct (rwriteable r); apply IH; apply sms_ev; exact HS.
+  - cbn [run_handler]. destruct (rwriteable r); [|apply IH; apply sms_ev; exact HS].
+    destruct (rlock r); [apply rsim_dl; exact HS|apply IH; apply sms_ev; exact HS].
   - cbn [run_handler]. apply rsim_ok. apply sms_ev. exact HS.
   - cbn [run_handler]. apply rsim_ok. apply sms_ev. exact HS.
   - cbn [run_handler]. rewrite <- (sms_io_fuel w1 w2 _ HS).
@@ -1149,13 +1152,16 @@ Proof.
   - left. apply Bef_ev. exact HB.
   - destruct (set_stream (rsp r) (Some s)) as [p'| |]; try exact HB. apply IH; [exact PS'|apply Bef_ev; exact HB].
   - destruct (negb (rwriteable r)); [apply IH; [exact PS'|apply Bef_ev; exact HB]|].
+    (* a writer that waits for Request.lock writes nothing: the world is unchanged (with prop_script the lock is in fact
+       never held here: ConnTotal.run_handler_ok, mode LProp) *)
+    destruct (rlock r && negb (len (take n rest) =? 0)); [exact HB|].
     pose proof (writer_write_all_B (N.to_nat (n / 65535) + 2) s (r_id (sreq (rsp r))) (take n rest) w HB) as WW.
     destruct (writer_write_all _ s _ (take n rest) w) as [[e|] w'|o w']; cbn [rpostB] in *.
     + destruct WW as [B1|(A1 & e' & E & He)]; [left; apply Bef_ev; exact B1|right]. injection E as ->.
       split; [apply Aft_ev; exact A1|]. exists e'. split; [reflexivity|exact He].
     + destruct WW as [B1|(_ & e & E & _)]; [|discriminate E]. apply IH; [exact PS'|apply Bef_ev; exact B1].
     + exact WW.
-  - destruct (rwriteable r); apply IH; try exact PS'; apply Bef_ev; exact HB.
+  - destruct (rwriteable r); [destruct (rlock r); [exact HB|]|]; apply IH; try exact PS'; apply Bef_ev; exact HB.
   - left. apply Bef_ev. exact HB.
   - left. apply Bef_ev. exact HB.
   - pose proof (await_input_B (io_fuel w 0) (Some n) r w HB) as AI.
